@@ -17,10 +17,10 @@
 # Confidence: high that this is a genuine defect. The earlier fix "run(..., till=T)
 #            re-raises an activity's exception unchanged" shows the intent; docs of
 #            run() say nothing about `till` changing error reporting.
-import sys; sys.path.insert(0, '/tmp/hunt1')
+import sys; sys.path.insert(0, '/repo')
 import faulthandler; faulthandler.dump_traceback_later(20, exit=True)
 import usim
-assert usim.__file__.startswith('/tmp/hunt1')
+assert usim.__file__.startswith('/repo')
 from usim import run, time, Scope, TaskCancelled, TaskClosed
 
 
